@@ -342,6 +342,9 @@ def execute_geo(case):
     cont = case.get("container", "plain")
     blat, blon = make_array(case["blat"], cont), make_array(case["blon"], cont)
     qlat, qlon = make_array(case["qlat"], cont), make_array(case["qlon"], cont)
+    if case.get("self_query"):
+        # the index is queried with the very array objects it was built from
+        qlat, qlon = blat, blon
     kw = {}
     if case.get("metric") is not None:
         kw["metric"] = case["metric"]
@@ -1048,11 +1051,25 @@ def run_bulk(spec, rec):
             else:
                 n = rng.choice([7, 8, 12, 20, 33, 60, 150, 400])
                 nq = rng.choice([1, 2, 5, 12, 40])
+            many_q = (i % 40 == 3)
+            if many_q:
+                # thousands of query points against a small index (sizes around powers of two)
+                n = rng.choice([3, 12, 40])
+                nq = rng.choice([2049, 3000, 4097, 5000])
+                big = True
             cls = POINT_CLASSES[(i * 3 + spec["shard"]) % len(POINT_CLASSES)]
             blat, blon, qlat, qlon = gen_points(rng, cls, n, nq)
+            self_query = (i % 6 == 1) and not many_q
+            if self_query:
+                qlat, qlon = list(blat), list(blon)
             fam = Family(blat, blon, qlat, qlon, cls)
             base = {"kind": "geo", "cls": cls, "blat": blat, "blon": blon, "qlat": qlat,
                     "qlon": qlon}
+            if self_query:
+                base["self_query"] = True
+                rec.count("geo.self_query_families")
+            if many_q:
+                rec.count("geo.many_query_families")
             metric = rng.choice([None, "haversine"])
             radii = gen_radii(rng, fam.oracle, metric, 2 if big else 4)
             if big:
@@ -1061,8 +1078,10 @@ def run_bulk(spec, rec):
                 d = np.sort(np.asarray(fam.oracle.dist(metric), dtype=float).ravel())
                 cap = float(d[min(d.size - 1, 150000)])
                 radii = [(c, r if r <= cap else cap * 0.999) for c, r in radii]
+            if many_q:
+                radii = radii[:1]
             run_family(rec, rng, fam, base, radii, exhaustive=False,
-                       perms_per_radius=4 if big else 8)
+                       perms_per_radius=1 if many_q else 4 if big else 8)
             rec.maxi("geo.build_points", n)
 
 
